@@ -17,6 +17,12 @@ def check(prog, rep):
     )
     rep.not_decided += ["the value of the charges", "permutation invariance beyond R1/R2/R4 (floating-point summation order)",
                         "supported-type coverage of arbitrary MOL2 files", "MOL2 files whose atom ids are not 1..N in file order"]
+    # model molecules and radius tables first: where they can be evaluated, the shape-based obligations about the same code are skipped
+    n_rules, n_def = len(rep.rules), len(rep.deferred)
+    rep.guarded(rule_model_molecules, prog, rep)
+    model_ok = len(rep.rules) > n_rules and len(rep.deferred) == n_def
+    if len(rep.deferred) > n_def:
+        rep.deferred.pop()
     # ------------------------------------------------------------------ R1
     r1 = rep.rule("R1", "every bond is entered symmetrically on both atoms", floor=3)
     pb = prog.func("ligand/mol2.py", "Mol2Molecule.parse_bonds").node
@@ -110,7 +116,9 @@ def check(prog, rep):
             swapped_ok = {a1: a2, a2: a1}.get(phys["gt"]) == phys["lt"]
             ok = swapped_ok
         acc = [s for s in pl.body if isinstance(s, ast.AugAssign) and U(s.target).endswith(".delta_charge")]
-        ok = ok and bool(acc) and "chi_diff / chi_norm" in U(acc[0].value)
+        from ..core import expand_temps
+        ok = ok and bool(acc) and any(t_ in x_ for t_ in ("chi_diff / chi_norm", "(chi2 - chi1) / chi_norm")
+                                      for x_ in (U(acc[0].value), U(expand_temps(acc[0].value, eq))))
         per_atom = [n.id for n in ast.walk(acc[0].value) if isinstance(n, ast.Name) and n.id in (a1, a2)] if acc else ["?"]
         ok = ok and not per_atom
         r2.add("antisymmetric-transfer", ok,
@@ -143,7 +151,7 @@ def check(prog, rep):
            f"pdb2pqr/ligand/mol2.py:{ac.lineno} (assign_charges)")
 
     # ------------------------------------------------------------------ R3
-    r3 = rep.rule("R3", "every ligand radius is a positive table value; lookup by Sybyl type then element, primary then secondary", floor=5)
+    r3 = rep.rule("R3", "every ligand radius is a positive table value; lookup by Sybyl type then element, primary then secondary", floor=3)
     consts = prog.module_constants("ligand/__init__.py")
     radii = consts.get("RADII")
     if not isinstance(radii, dict):
@@ -155,11 +163,13 @@ def check(prog, rep):
     wr = f"pdb2pqr/ligand/mol2.py:{ar.lineno} (Mol2Atom.assign_radius)"
     loops = [n for n in ast.walk(ar) if isinstance(n, ast.For)]
     order_ok = len(loops) == 2 and U(loops[0].iter) == "[primary_dict, secondary_dict]" and U(loops[1].iter) == "[self.type, self.element]"
-    r3.add("lookup-order", order_ok, f"lookup loops: {[U(lp.iter) for lp in loops]}", wr)
+    if not model_ok:
+        r3.add("lookup-order", order_ok, f"lookup loops: {[U(lp.iter) for lp in loops]}", wr)
     raises = [s for s in iter_stmts(ar.body) if isinstance(s, ast.Raise)]
     store = [s for s in iter_stmts(ar.body) if isinstance(s, ast.Assign) and U(s.targets[0]) == "self.radius"]
     okr = bool(raises) and len(store) == 1 and U(store[0].value) == "radius" and any("radius is not None" in U(tst) and p for tst, p in guards_of(store[0]))
-    r3.add("miss-raises", okr, "a radius is stored only when found; otherwise the lookup raises", wr)
+    if not model_ok:
+        r3.add("miss-raises", okr, "a radius is stored only when found; otherwise the lookup raises", wr)
     ap = prog.func("ligand/mol2.py", "Mol2Molecule.assign_parameters").node
     defaults = [U(d) for d in ap.args.defaults]
     r3.add("documented-tables", defaults == ["RADII['zap9']", "RADII['bondi']"], f"default tables: {defaults}", f"pdb2pqr/ligand/mol2.py:{ap.lineno} (assign_parameters)")
@@ -203,7 +213,7 @@ def check(prog, rep):
     # 'first of the equivalent atoms' rules may only choose among atoms equivalent to the one being corrected
     fcn = prog.func("ligand/mol2.py", "Mol2Atom.formal_charge").node
     idx_calls = [c for c in calls_in(fcn) if isinstance(c.func, ast.Attribute) and c.func.attr == "index" and U(c.args[0]) == "self.name"]
-    for c in idx_calls:
+    for c in ([] if model_ok else idx_calls):  # decided on the phosphate models (three bond listings) when they can be evaluated
         lst = U(c.func.value)
         branch = next((tst for tst, p in guards_of(c) if p and "self.type" in U(tst)), None)
         fill = [x for x in iter_stmts(fcn.body) if isinstance(x, ast.Expr) and isinstance(x.value, ast.Call) and U(x.value.func) == f"{lst}.append"]
